@@ -5,6 +5,8 @@
    actually live after construction (counting allocator; every construction path) equal the
    model's value.  Allocator rounding is outside the model.  Statements only. *)
 From QwtModel Require Import ListX Seq Consts QVec RSQ QWT BitVec RSBin Prefetch Space RSQBuild QWTP RSBinB SpaceP.
+From QwtModel Require Import Words Huff.
+From QwtModel Require WrapP BinWTP.
 
 (* one level: n/4 bytes of symbols (2 bits each, 64-byte lines) + one 64-byte superblock record
    per 8 blocks (12.5% for block size 256, 6.25% for 512) + select samples (n/2048) + constant *)
@@ -42,3 +44,27 @@ Theorem C14_rsq_exact : forall bsize vs r, (bsize = 256 \/ bsize = 512) -> len v
   len (rs_samples (rsq_rs r)) = 4.
 Proof. exact rsq_heap_exact. Qed.
 Print Assumptions C14_rsq_exact.
+
+(* the binary wavelet tree: bitlen(max) levels, each n/8 bytes of bits + one u128 per 4096 bits
+   + one hint per 8192 + constant: 1 + 16/512 + 8/1024 < 1.05 times n * bitlen(m) bits, plus a
+   per-level term (the bound is attained: WrapP.wt_heap_bound_attained) *)
+Theorem C14_wt : forall w seq t, BinWTP.width_ok w -> Forall (fun x => x < 2 ^ w) seq ->
+  len seq < RSQ_MAXN -> seq <> [] -> wt_build w false seq [] = Val t ->
+  wt_heap_plain abi64 t <=
+  (msb (maxN seq) + 1) * (len seq / 8 + (len seq / 4096) * 16 + (len seq / 8192) * 8 + 232).
+Proof. exact WrapP.wt_heap_bound. Qed.
+Print Assumptions C14_wt.
+Theorem C14_wt_empty : forall w compressed tab t, wt_build w compressed [] tab = Val t ->
+  wt_heap_plain abi64 t = 0.
+Proof. exact WrapP.wt_heap_empty. Qed.
+Print Assumptions C14_wt_empty.
+(* Huffman-shaped binary tree: level-wise, in terms of the level lengths (whose sum is
+   sum_c f_c * len_c: C15) *)
+Theorem C14_hwt_levelwise : forall w seq tab t, len seq < RSQ_MAXN -> seq <> [] ->
+  wt_build w true seq tab = Val t ->
+  len (w_lens t) = maxN (map pc_len tab) /\
+  map (fun r => bv_len (rsw_bv r)) (w_bvs t) = w_lens t /\
+  Forall (fun ln => ln <= len seq) (w_lens t) /\
+  wt_heap_plain abi64 t <= sumN (map (fun n => n / 8 + (n / 4096) * 16 + (n / 8192) * 8 + 232) (w_lens t)).
+Proof. exact WrapP.hwt_heap_bound. Qed.
+Print Assumptions C14_hwt_levelwise.
